@@ -155,6 +155,11 @@ func init() {
 		return t
 	}
 	// names that begin with two dots (a ConfigMap volume: ..data, ..2024_05_01)
+	// special files with several names (a fifo and a device created once and linked), next to an ordinary group
+	extraTrees["c7speclinks"] = func() fsmodel.Tree {
+		return fsmodel.Tree{f("a", 67, 5, t1), {Path: "p1", Kind: fsmodel.Fifo, Perm: 0600, Mtime: t1 + 1, HL: 1}, {Path: "p2", Kind: fsmodel.Fifo, Perm: 0600, Mtime: t1 + 1, HL: 1},
+			{Path: "q1", Kind: fsmodel.Char, Perm: 0600, Mtime: t1 + 2, Major: 1, Minor: 3, HL: 2}, d("sub", t1+3), {Path: "sub/q2", Kind: fsmodel.Char, Perm: 0600, Mtime: t1 + 2, Major: 1, Minor: 3, HL: 2}, f("z", 68, 4, t1+4)}
+	}
 	extraTrees["c7dots"] = func() fsmodel.Tree {
 		return fsmodel.Tree{d("..2024_05_01", t1), f("..2024_05_01/token", 64, 9, t1+1), {Path: "..data", Kind: fsmodel.Symlink, Perm: 0777, Mtime: t1 + 2, Link: "..2024_05_01"},
 			f("..hidden", 65, 3, t1+3), {Path: "token", Kind: fsmodel.Symlink, Perm: 0777, Mtime: t1 + 4, Link: "..data/token"}, d("z", t1+5), f("z/..x", 66, 2, t1+6)}
@@ -170,7 +175,11 @@ func init() {
 	// the view of C06 plus a fifo and a character device (entries that are announced but carry no content)
 	extraTrees["v1spec"] = func() fsmodel.Tree {
 		t := Tree("v1")
-		t = append(t, fsmodel.Node{Path: "p", Kind: fsmodel.Fifo, Perm: 0600, Mtime: t1 + 8}, fsmodel.Node{Path: "q", Kind: fsmodel.Char, Perm: 0600, Mtime: t1 + 9, Major: 1, Minor: 3})
+		t = append(t, fsmodel.Node{Path: "p", Kind: fsmodel.Fifo, Perm: 0600, Mtime: t1 + 8}, fsmodel.Node{Path: "q", Kind: fsmodel.Char, Perm: 0600, Mtime: t1 + 9, Major: 1, Minor: 3},
+			// regular files with the set-uid, set-gid and sticky bit: regular files all the same (ids 7, 8, 9)
+			fsmodel.Node{Path: "s1", Kind: fsmodel.File, Perm: 04755, Mtime: t1 + 10, Data: fsmodel.Content(71, 40000)},
+			fsmodel.Node{Path: "s2", Kind: fsmodel.File, Perm: 02755, Mtime: t1 + 11, Data: fsmodel.Content(72, 5)},
+			fsmodel.Node{Path: "s3", Kind: fsmodel.File, Perm: 01644, Mtime: t1 + 12, Data: fsmodel.Content(73, 6)})
 		t.Sort()
 		return t
 	}
